@@ -394,13 +394,13 @@ Qed.
 (* ----------------------------------------------------- following references *)
 
 (* follow is quiet; what it returns is a session that agrees with the store *)
-Lemma follow_qt b base D : forall fuel s o, inv b base NX D s -> Kcs s -> hok b D s o -> sc s o ->
-  qt s (fst (follow fuel s o)) /\ Kcs (fst (follow fuel s o)) /\
-  forall o', snd (follow fuel s o) = Ok o' -> hg (fst (follow fuel s o)) o'.
+Lemma follow_qt b base D : forall fuel s o lk, inv b base NX D s -> Kcs s -> hok b D s o -> sc s o ->
+  qt s (fst (follow fuel s o lk)) /\ Kcs (fst (follow fuel s o lk)) /\
+  forall o' lk', snd (follow fuel s o lk) = Ok (o', lk') -> hg (fst (follow fuel s o lk)) o'.
 Proof.
-  induction fuel as [|f IH]; intros s o I K [Hbo [ob [Ho HnD]]] Hsc; cbn [follow]; rewrite Ho.
-  - destruct (r_ref (o_rec ob)) eqn:Hr; cbn [fst snd]; (split; [apply qt_refl|]); (split; [exact K|]); intros o' E; [discriminate|].
-    injection E as <-. destruct Hsc as (ob' & Ho' & Hs). rewrite Ho in Ho'. injection Ho' as <-.
+  induction fuel as [|f IH]; intros s o lk I K [Hbo [ob [Ho HnD]]] Hsc; cbn [follow]; rewrite Ho.
+  - destruct (r_ref (o_rec ob)) eqn:Hr; cbn [fst snd]; (split; [apply qt_refl|]); (split; [exact K|]); intros o' lk' E; [discriminate|].
+    injection E as <- <-. destruct Hsc as (ob' & Ho' & Hs). rewrite Ho in Ho'. injection Ho' as <-.
     exists ob. split; [exact Ho|]. split; [exact Hr | rewrite Hs, Hr; reflexivity].
   - destruct (r_ref (o_rec ob)) as [t|] eqn:Hr.
     + destruct (cache_get_inv _ _ _ _ _ t I) as (s1 & r & E & I1 & Hres).
@@ -408,12 +408,12 @@ Proof.
       destruct r as [o1|].
       * destruct Hres as [Hbo' [ob1 (Ho1 & _ & HnD1 & _)]].
         destruct (Hobj o1 eq_refl) as (ob1' & Ho1' & Hid & Hs1). rewrite Ho1 in Ho1'. injection Ho1' as <-.
-        destruct (IH s1 o1 I1 K1) as (Q2 & K2 & Hok).
+        destruct (IH s1 o1 t I1 K1) as (Q2 & K2 & Hok).
         { split; [exact Hbo' | exists ob1; split; assumption]. }
         { exists ob1. split; [exact Ho1 | rewrite Hid; exact Hs1]. }
         split; [eapply qt_trans; eassumption|]. split; [exact K2 | exact Hok].
-      * cbn [fst snd]. split; [exact Q1|]. split; [exact K1|]. intros o' E'. discriminate.
-    + cbn [fst snd]. split; [apply qt_refl|]. split; [exact K|]. intros o' E. injection E as <-.
+      * cbn [fst snd]. split; [exact Q1|]. split; [exact K1|]. intros o' lk' E'. discriminate.
+    + cbn [fst snd]. split; [apply qt_refl|]. split; [exact K|]. intros o' lk' E. injection E as <- <-.
       destruct Hsc as (ob' & Ho' & Hs). rewrite Ho in Ho'. injection Ho' as <-.
       exists ob. split; [exact Ho|]. split; [exact Hr | rewrite Hs, Hr; reflexivity].
 Qed.
